@@ -329,7 +329,10 @@ CLAIMED = {
              "equal the model's, the properties are checked after every step; the REAL FMMULock is created concurrently with colliding draws and the creator "
              "interrupted after creating the file; allocations run against removals on the same map byte (one side stopped between reading and writing the "
              "byte, the other side must report that it waits for the file lock), the windows handed out must equal the model's for the order in which the lock "
-             "was held (C23_split_release_refuted: without that exclusion a window is handed out twice).",
+             "was held (C23_split_release_refuted: without that exclusion a window is handed out twice). C23_remove_clears_only_own_bit / C23_alloc_sets_only_own_bit "
+             "/ C23_map_bytes_refine take the list model down to the 64 BYTES of the map file (byte | (1 << k), byte & ~(1 << k) on unbounded integers as lock.py "
+             "computes them): after any sequence of allocations and removals the file marks exactly the numbers the abstract state holds; tied by running the real "
+             "FMMULock on files with arbitrary initial content and comparing every byte with the model after scripted allocations and removals.",
         note=TB + "Partial: netlink attach / detach, bpf obj_pin / obj_get / create_map and the raw socket are stand-ins inside the children (files in a scratch "
              "root; the file-system calls are real); crashes between operations are not modelled; Known finding: the dispatcher does not stay installed (leaver / fresh starter race).",
         technique="Coq finite-state closure proof + invariant proof over histories + real multi-process executions gated at every shared operation",
